@@ -49,6 +49,7 @@ EVAL = {
     },
 }
 OPS = [(k, n) for k in ("call", "test") for n in ("in", "part", "out", "unl")]
+OBSERVED = []      # what the implementation returned in the current case (classes / summaries), for the outcome fingerprint
 
 
 def _learn(c):
@@ -150,6 +151,7 @@ def _run_sequence_inner(c, seq):
                 issues.append(("unexpected_rejection", "step %d %s/%s raised ValueError although %d samples are inside" % (si, kind, name, int(inr.sum()))))
                 continue
             Xo, yo = out.get_data()
+            OBSERVED.append(("call", name, tuple(int(v) for v in yo)))
             if Xo.shape != scin.shape or not np.allclose(Xo, scin, rtol=1e-12, atol=1e-14):
                 issues.append(("outside_samples_removed", "step %d %s/%s: returned samples %r, expected the %d inside samples %r" % (si, kind, name, Xo.tolist(), len(scin), scin.tolist())))
                 continue
@@ -168,6 +170,7 @@ def _run_sequence_inner(c, seq):
             if raised:
                 issues.append(("unexpected_rejection", "step %d %s/%s raised ValueError although %d samples are inside" % (si, kind, name, int(inr.sum()))))
                 continue
+            OBSERVED.append(("test", name, int(out["Wrong mappings"]), int(out["Total mappings"])))
             m = yd[inr] >= 0
             lab = yd[inr][m]
             exp_used = expc[m]
@@ -198,6 +201,7 @@ def run_case(case):
     fails = []
     n = 0
     seen = set()
+    del OBSERVED[:]
     depth = c["depth"]
     for tail in itertools.product(OPS, repeat=depth - len(c["prefix"])):
         seq = [tuple(x) for x in c["prefix"]] + list(tail)
@@ -215,7 +219,7 @@ def run_case(case):
             f = fail(oracle, "learning %r, sequence %r: %s" % ({k: v for k, v in c.items() if k not in ("prefix", "depth")}, seq, detail), dict(key))
             f["case"] = {"config": dict(c, prefix=[list(x) for x in seq], depth=len(seq))}
             fails.append(f)
-    return {"failures": fails, "canon": core.config_key(c), "outcome": (n, len(fails)), "nontrivial": True, "evals": n}
+    return {"failures": fails, "canon": core.config_key(c), "outcome": (n, len(fails), core.digest(tuple(OBSERVED))), "nontrivial": True, "evals": n}
 
 
 def cases(tier):
